@@ -309,3 +309,7 @@ func init() {
 	prop("C20", "C20-R6")
 	prop("C02", "C20-R6")
 }
+
+func init() {
+	prop("C07", "C17-R1") // an index kind whose UpdateEntry cannot return leaves index and table apart after any update
+}
